@@ -198,6 +198,9 @@ def check(repo, res, tier):
     res.rule('C12.M7', 'adopted C18.V4: the stored column counts an observation in exactly one tier -- the receiving tier '
                        'appends it when (and only when) its transfer completes')
     borrow(repo, res, tier, c18, {'C18.V4'}, 'C12.M7')
+    from .c10 import check_shared_state
+    check_shared_state(repo, res, 'C12.M8', 'the counters the table reports are shared with other Cluster objects: a second '
+                       'simulation in the process starts with the first one\'s numbers')
     w = witness()
     res.extra['simpy_witness'] = w
     res.assumptions += ['SimPy order model: processes registered first wake first in every step']
